@@ -65,7 +65,7 @@ def shapes():
     wf('wf-ret-2^w', first, lambda i, n: 6, lambda i, n: ('+', ('<<', 1, W_), ('*', 4, W_)))  # a return address that does not fit
     for k in (1, 2, 3, 4, 6):
         S.append((f'pad{k}', lambda i, n, k=k: ('pad', k)))
-    for kind in ('adjacent', 'gap', 'overlap0', 'unaligned', 'walign', 'huge'):
+    for kind in ('adjacent', 'gap', 'overlap0', 'unaligned', 'walign', 'huge', 'top'):
         S.append((f'seg-{kind}', lambda i, n, kind=kind: ('segment', kind)))
     for kind, tree in (('w', W_), ('2w', ('*', 2, W_)), ('lazy', ('*', 1002, W_)), ('half', ('/', W_, 2))):
         S.append((f'res-{kind}', lambda i, n, tree=tree: ('reserve', tree)))
@@ -147,7 +147,7 @@ def denote(seq, w):
             elif kind == 'segment':
                 base = (cur + dw - 1) // dw * dw
                 addr = {'adjacent': base, 'gap': base + 8 * dw, 'overlap0': 0, 'unaligned': base + 1, 'walign': base + w,
-                        'huge': 1 << w}[ab[1]]
+                        'huge': 1 << w, 'top': (1 << w) - 2 * dw}[ab[1]]  # top: room for exactly two more ops below 2^w
                 lines.append(f'segment {addr}')
                 if addr % w:
                     raise Impossible('segment address is not w-aligned')
